@@ -18,6 +18,8 @@ from .. import callgraph, oblig
 from ..facts import callee_name, fmt_span
 from .c02 import decoder_roles, loop_heads
 
+from ..report import norm_key
+
 EXPLANATION = __doc__
 NOT_DECIDED = "measured heap high-water versus bytes received; that other connections keep working at run time"
 ASSUMPTIONS = ["contract table for bytes/std panic preconditions (zrules/oblig.py) is complete for the callees that occur on the surface",
@@ -279,8 +281,9 @@ def run(ctx, f, rep):
             rule = "R03.4" if (s["kind"] == "unwrap" and "Result" in s["name"]) else "R03.1"
             if rule == "R03.4":
                 key = key.replace("R03.1|", "R03.4|", 1)
-            if key in ALLOW:
-                rep.ok(rule, key, "%s: allow-listed: %s" % (what, ALLOW[key]), s["loc"])
+            akey = next((k_ for k_ in ALLOW if norm_key(k_) == norm_key(key)), None)     # matched without private module qualifiers
+            if akey is not None:
+                rep.ok(rule, key, "%s: allow-listed: %s" % (what, ALLOW[akey]), s["loc"])
                 continue
             if is_wrapper_site(f, body, s):
                 rep.ok(rule, key, "%s: precondition belongs to the callers of this one-line wrapper (checked at each call site on the surface)" % what, s["loc"])
